@@ -14,6 +14,11 @@ def gen(rng, tier):
         D = common.random_divisor(rng, G, band=rng.choice(["low", "mid", None]) if opt else None)
         E = [(a, b) for a, b, _ in G["edges"]]; ori = [[a, b] if rng.random() < 0.5 else [b, a] for a, b in E if rng.random() < 0.7]
         out.append({"G": G, "D": D, "opt": opt, "ori": ori, "fam": fam, "s": rng.randrange(1 << 30)})
+    for _ in range(6 if tier == "quick" else 60):
+        # long recorded runs: a pile of chips far from a deep debt travels one firing at a time (hundreds of recorded steps)
+        n = rng.choice([3, 4]); style = rng.choice([0, 1, 2, 4]); G = common.mk_graph(n, [(i, i + 1, 1) for i in range(n - 1)], None, style)
+        D = [0] * n; D[0] = -rng.randint(3, 6); D[n - 1] = rng.randint(25, 45)
+        out.append({"G": G, "D": D, "opt": False, "ori": [], "fam": "longrun", "s": rng.randrange(1 << 30)})
     return out
 def impl(c):
     from chipfiring import EWD, CFOrientation
